@@ -71,6 +71,67 @@ def _bloc_input(rng, kind, nb, n):
     return inp
 
 
+# apportionment rules a "Huntington-Hill" implementation is most easily confused with.  They are used ONLY to pick inputs on which Huntington-Hill
+# differs from one of them (boundary-value design: quotas between the geometric-mean and the arithmetic-mean rounding point, tiny types next
+# to a dominant one ...); the verdict on the generated profile is TLC's, through Generators!IsHH.
+def _divisor(ws, n, start, sq):
+    s = [start if w > 0 else 0 for w in ws]
+    if sum(s) > n:
+        return None
+    while sum(s) < n:
+        pr = [(w * w / sq(x) if sq(x) else float("inf")) if w > 0 else -1 for w, x in zip(ws, s)]
+        best = max(pr)
+        if pr.count(best) > 1:
+            return None                     # a tie: several apportionments are legal, no use as a discriminating input
+        s[pr.index(best)] += 1
+    return s
+
+
+def _apportionments(ws, n):
+    tot = sum(ws)
+    out = {"hh": _divisor(ws, n, 1, lambda x: F(x * (x + 1))), "webster": _divisor(ws, n, 0, lambda x: (F(x) + H) ** 2),
+           "jefferson": _divisor(ws, n, 0, lambda x: F((x + 1) ** 2)), "adams": _divisor(ws, n, 1, lambda x: F(x * x))}
+    fl = [int(n * w / tot) for w in ws]
+    rem = sorted(range(len(ws)), key=lambda i: -(n * ws[i] / tot - fl[i]))
+    ham = list(fl)
+    for i in rem[:n - sum(fl)]:
+        ham[i] += 1
+    out["hamilton"] = ham
+    lq = [max(x, 1) if w > 0 else 0 for x, w in zip(fl, ws)]      # lower quota first, the remainder by Huntington-Hill priority
+    if sum(lq) <= n:
+        while sum(lq) < n:
+            pr = [w * w / F(x * (x + 1)) if w > 0 else -1 for w, x in zip(ws, lq)]
+            best = max(pr)
+            if pr.count(best) > 1:
+                lq = None
+                break
+            lq[pr.index(best)] += 1
+        out["lowerquota_hh"] = lq
+    return out
+
+
+def hh_discriminating(rng, per_method, nshares=(2, 3)):
+    """(shares, N) on which Huntington-Hill differs from another apportionment rule; up to per_method inputs per rule"""
+    found = {}
+    for _ in range(40000):
+        k = rng.choice(nshares)
+        d = rng.choice([10, 12, 20, 40])
+        cuts = sorted(rng.sample(range(1, d), k - 1))
+        parts = [b - a for a, b in zip([0] + cuts, cuts + [d])]
+        n = rng.randint(k, 50)
+        ws = [F(x, d) for x in parts]
+        ap = _apportionments(ws, n)
+        if ap["hh"] is None:
+            continue
+        for m, v in ap.items():
+            if m != "hh" and v is not None and v != ap["hh"] and len(found.setdefault(m, [])) < per_method \
+                    and ([rat(w) for w in ws], n) not in found[m]:
+                found[m].append(([rat(w) for w in ws], n))
+        if all(len(found.get(m, [])) >= per_method for m in ("webster", "jefferson", "adams", "hamilton", "lowerquota_hh")):
+            break
+    return found
+
+
 def _free_input(rng, kind, n, variant=""):
     nc = rng.randint(1, 5)
     cands = D.ABC[:nc]
@@ -149,6 +210,22 @@ def corpus(tier, seed):
         for i in range(per_bloc_kind):
             nb = nbs[i % len(nbs)] if i % 4 else max(nbs)
             inputs.append(_bloc_input(rng, kind, nb, ns[(i // len(nbs)) % len(ns)]))
+    # apportionment boundary inputs: shares and sizes on which Huntington-Hill differs from Webster / Jefferson / Adams / Hamilton /
+    # "lower quota first"; every bloc-level generator gets some of each
+    disc = hh_discriminating(rng, 6 if q else 60)
+    for kind in BLOC_KINDS:
+        if kind in CROSS_KINDS:
+            continue
+        nbs = NBLOCS.get(kind, (1, 2, 3))
+        for m, lst in sorted(disc.items()):
+            for ws, n in (rng.sample(lst, min(len(lst), 2 if q else 12))):
+                if len(ws) not in nbs:
+                    continue
+                inp = _bloc_input(rng, kind, len(ws), n)
+                inp["props"] = dict(zip(inp["blocs"], ws))
+                inp["byb"] = True
+                inp["hh_vs"] = m
+                inputs.append(inp)
     for kind in FREE_KINDS:
         for i in range(per_free_kind):
             variant = ""
@@ -307,6 +384,8 @@ def _sig(t, rec):
                 zero = True
         if t["op"] == "Cambridge" and not zero_lib(t) and cambridge_swapped(t):
             return "Cambridge:CohesionAppliedToWrongSlate"
+        if not zero_lib(t):
+            return "%s:Apportionment" % t["op"]     # the recorded findings concern the package's "fewer seats than parties" branch only
         return "gen:Apportionment:" + ("ZeroShareTypeGetsBallot" if zero else "NotHuntingtonHill")
     if t["op"] == "Cambridge" and cl == "EmptyBallot":
         pr = dict((b, F(*p)) for b, p in t["props"])
@@ -315,6 +394,11 @@ def _sig(t, rec):
             return "gen:Apportionment:ZeroShareTypeGetsBallot"     # a voter of a type with share zero: nothing to rank
         if cambridge_swapped(t):
             return "Cambridge:CohesionAppliedToWrongSlate"
+    variant = (t.get("_inp") or {}).get("variant", "")
+    if (t["op"], cl) == ("BSpoint", "Error:ZeroDivisionError") and variant != "zero":
+        return "BSpoint:Error:ZeroDivisionError(no zero entry in the point)"     # the recorded finding is the zero-entry point only
+    if (t["op"], cl) == ("Clustered", "Error:NoProfileReturned") and variant != "gp":
+        return "Clustered:Error:NoProfileReturned(generate_profile_with_dict)"   # the recorded finding is the inherited generate_profile stub
     return "%s:%s" % (t["op"], cl)
 
 
